@@ -106,14 +106,119 @@ func (e *Eval) firstWhere(n int, pred func(i int) int, reverse bool) []struct{ i
 
 func (e *Eval) scanCall(name string, c *ssa.CallCommon, args []Val) (Val, bool) {
 	m := e.M
+	if strings.HasPrefix(name, "(encoding/binary.") && len(args) == 2 {
+		// BigEndian / LittleEndian .Uint16/32/64 of a byte window
+		big := strings.HasPrefix(name, "(encoding/binary.bigEndian)")
+		n := 0
+		switch {
+		case strings.HasSuffix(name, ".Uint16"):
+			n = 2
+		case strings.HasSuffix(name, ".Uint32"):
+			n = 4
+		case strings.HasSuffix(name, ".Uint64"):
+			n = 8
+		}
+		s, ok := e.strBytes(args[1])
+		if n == 0 || !ok || len(s) < n {
+			return Val{}, false
+		}
+		bits := make([]int, 8*n)
+		for i := 0; i < n; i++ {
+			// byte i holds bits 8(n-1-i).. (big endian) or 8i.. (little endian)
+			at := 8 * i
+			if big {
+				at = 8 * (n - 1 - i)
+			}
+			copy(bits[at:at+8], s[i])
+		}
+		return Val{Kind: KBits, Bits: bits}, true
+	}
 	pkgFn := name
 	if i := strings.IndexByte(name, '.'); i >= 0 && (strings.HasPrefix(name, "strings.") || strings.HasPrefix(name, "bytes.")) {
 		pkgFn = name[i+1:]
+	} else if name == "unicode/utf8.DecodeRuneInString" || name == "unicode/utf8.DecodeRune" {
+		s, ok := e.strBytes(args[0])
+		if !ok {
+			return Val{}, false
+		}
+		if len(s) == 0 {
+			return Val{Kind: KTuple, Tuple: []Val{e.Const(0xFFFD, 32, true), e.Const(0, 64, true)}}, true
+		}
+		var alts []ChoiceAlt
+		for _, a := range e.decodeRune(s, 0) {
+			alts = append(alts, ChoiceAlt{a.Cond, Val{Kind: KTuple, Tuple: []Val{a.Val.Tuple[2], e.Const(int64(a.Val.Lo), 64, true)}}})
+		}
+		return choice(alts), true
 	} else if !strings.HasPrefix(name, "strconv.") {
 		return Val{}, false
 	}
 	intv := func(i int) Val { return e.Const(int64(i), 64, true) }
 	switch pkgFn {
+	case "IndexFunc", "ContainsFunc":
+		// the first rune (decoded as the library does) on which the predicate
+		// holds: conditions are accumulated per start position
+		s, ok := e.strBytes(args[0])
+		if !ok {
+			return Val{}, false
+		}
+		var pf *ssa.Function
+		var binds []Val
+		switch {
+		case args[1].Kind == KFunc:
+			pf, binds = args[1].Fn, args[1].Binds
+		case args[1].Kind == KOpaque && args[1].Fn != nil && len(args[1].Fn.Blocks) > 0:
+			pf = args[1].Fn
+		default:
+			return Val{}, false
+		}
+		reach := make([]int, len(s)+5)
+		reach[0] = e.outerCond
+		if reach[0] == 0 {
+			reach[0] = 1
+		}
+		var alts []ChoiceAlt
+		found := 0
+		saved := e.outerCond
+		for pos := 0; pos < len(s); pos++ {
+			if reach[pos] == 0 {
+				continue
+			}
+			for _, a := range e.decodeRune(s[pos:], pos) {
+				c := m.And(reach[pos], a.Cond)
+				if c == 0 {
+					continue
+				}
+				e.nextBinds = binds
+				e.outerCond = c
+				rs := e.call(pf, []Val{a.Val.Tuple[2]})
+				e.outerCond = saved
+				if len(rs) != 1 || rs[0].Kind != KBits || len(rs[0].Bits) != 1 {
+					unsupported("predicate of %s does not return a Boolean", name)
+				}
+				yes := m.And(c, rs[0].Bits[0])
+				if yes != 0 {
+					alts = append(alts, ChoiceAlt{yes, intv(pos)})
+					found = m.Or(found, yes)
+				}
+				next := pos + a.Val.Lo
+				reach[next] = m.Or(reach[next], m.And(c, m.Not(rs[0].Bits[0])))
+			}
+		}
+		if pkgFn == "ContainsFunc" {
+			return BoolVal(found), true
+		}
+		none := 0
+		for p := len(s); p < len(reach); p++ {
+			none = m.Or(none, reach[p])
+		}
+		if len(s) == 0 {
+			none = 1
+		}
+		if none != 0 {
+			alts = append(alts, ChoiceAlt{none, intv(-1)})
+		}
+		// merge alternatives with the same index
+		return choice(alts), true
 	case "IndexByte", "LastIndexByte", "IndexRune":
 		s, ok := e.strBytes(args[0])
 		if !ok || args[1].Kind != KBits {
@@ -433,3 +538,32 @@ func (e *Eval) decodeRune(s [][]int, index int) []ChoiceAlt {
 	add(inv, e.Const(0xFFFD, 32, true).Bits, 1)
 	return alts
 }
+
+// IsPlainASCII: every byte of the string is ASCII for every input, and the
+// text "xn--" (in any letter case) can occur nowhere in it — idna.ToASCII
+// leaves such a name as it is.
+func (e *Eval) IsPlainASCII(v Val) bool {
+	s, ok := e.strBytes(v)
+	if !ok {
+		return false
+	}
+	for _, b := range s {
+		if b[7] != 0 {
+			return false
+		}
+	}
+	fold := func(b []int, c byte) int {
+		return e.M.Or(e.eq(b, e.Const(int64(c), 8, false).Bits), e.eq(b, e.Const(int64(c-32), 8, false).Bits))
+	}
+	dash := e.Const('-', 8, false).Bits
+	for i := 0; i+4 <= len(s); i++ {
+		if e.M.And(e.M.And(fold(s[i], 'x'), fold(s[i+1], 'n')), e.M.And(e.eq(s[i+2], dash), e.eq(s[i+3], dash))) != 0 {
+			return false
+		}
+	}
+	return true
+}
+
+// Ult8 is bits < c (unsigned, 8 bits); Ult8c is c < bits.
+func (e *Eval) Ult8(bits []int, c byte) int  { return e.ult(bits, e.Const(int64(c), 8, false).Bits) }
+func (e *Eval) Ult8c(c byte, bits []int) int { return e.ult(e.Const(int64(c), 8, false).Bits, bits) }
